@@ -30,7 +30,7 @@ package cache
 //@   ensures !contains(m.sharedCaches, name)
 
 //@ func (*Transaction).With
-//@   property C11
+//@   property C11 C07
 //@   requires t.manager != nil && unheld(t.mu) && unheld(t.manager.mu)
 //@   callback createFn ensures true
 //@   callback f ensures true
@@ -64,7 +64,7 @@ package cache
 //@   ensures result.writtenCaches != nil && fresh(result.writtenCaches) && forallv(k string, !contains(result.writtenCaches, k))
 
 //@ func (*Transaction).Commit
-//@   property C11
+//@   property C11 C07
 //@   modifies t.manager.sharedCaches, field(sharedCacheElem.scrapped), locks(sharedCacheElem.mu)
 //@   requires t.manager != nil && unheld(t.mu) && unheld(t.manager.mu) && t.writtenCaches != t.manager.sharedCaches
 //@   requires forallv(k string, contains(t.writtenCaches, k) ==> t.writtenCaches[k] != nil && heldW(t.writtenCaches[k].mu))
